@@ -307,22 +307,28 @@ func (u *Url) IsIPv6() bool {
 
 // Clone returns a deep copy of the URL.
 func (u *Url) Clone() *Url {
-	return &Url{
-		inputUrl:     u.inputUrl,
-		scheme:       u.scheme,
-		username:     u.username,
-		password:     u.password,
-		host:         cloneStringPointer(u.host),
-		port:         cloneStringPointer(u.port),
-		decodedPort:  u.decodedPort,
-		path:         u.path.clone(),
-		query:        cloneStringPointer(u.query),
-		fragment:     cloneStringPointer(u.fragment),
-		searchParams: u.SearchParams().Clone(),
-		parser:       u.parser,
-		isIPv4:       u.isIPv4,
-		isIPv6:       u.isIPv6,
+	c := &Url{
+		inputUrl:    u.inputUrl,
+		scheme:      u.scheme,
+		username:    u.username,
+		password:    u.password,
+		host:        cloneStringPointer(u.host),
+		port:        cloneStringPointer(u.port),
+		decodedPort: u.decodedPort,
+		path:        u.path.clone(),
+		query:       cloneStringPointer(u.query),
+		fragment:    cloneStringPointer(u.fragment),
+		parser:      u.parser,
+		isIPv4:      u.isIPv4,
+		isIPv6:      u.isIPv6,
 	}
+	// Do not create the search parameters of u here (Clone must not write to u), and let the
+	// copy write through to the clone instead of to u.
+	if u.searchParams != nil {
+		c.searchParams = u.searchParams.Clone()
+		c.searchParams.url = c
+	}
+	return c
 }
 
 func cloneStringPointer(s *string) *string {
